@@ -6,6 +6,9 @@ Line protocol for the C15 model (one s-expression in, one out):
   (issol CNF ASG)               -> T | F
   (resolve C1 C2 NAME)          -> CLAUSE            (canonical order)
   (checktrace CNF N0 PROOFS)    -> T | F
+  (checkproofs CNF PROOFS)      -> T | F             (CNF = the input; learned clauses are rebuilt)
+  (tseitin FORM (FORM ...))     -> CNF               (second argument: the subterm numbering)
+FORM = (atom n) | (not F) | (and F F) | (or F F) | (imp F F) | (iff F F)
 CNF = (CLAUSE ...), CLAUSE = ((name T|F) ...), ASG = ((name T|F) ...), PROOFS = ((id (i ...)) ...)
 -/
 open Holpy Holpy.C15
@@ -23,6 +26,15 @@ def proofsOf (s : Sexp) : Option (List (Nat × List Nat)) := do
   (← s.toList?).mapM fun
     | .list [i, p] => do some ((← i.toNat?), (← natsOf p))
     | _ => none
+
+partial def formOf : Sexp → Option Form
+  | .list [.atom "atom", n] => do some (.atom (← n.toNat?))
+  | .list [.atom "not", a] => do some (.not (← formOf a))
+  | .list [.atom "and", a, b] => do some (.and (← formOf a) (← formOf b))
+  | .list [.atom "or", a, b] => do some (.or (← formOf a) (← formOf b))
+  | .list [.atom "imp", a, b] => do some (.imp (← formOf a) (← formOf b))
+  | .list [.atom "iff", a, b] => do some (.iff (← formOf a) (← formOf b))
+  | _ => none
 
 def litTo (l : Lit) : Sexp := .list [Sexp.ofNat l.1, Sexp.ofBool l.2]
 def clauseTo (c : Clause) : Sexp := .list (c.map litTo)
@@ -56,6 +68,14 @@ def handle (line : String) : String :=
     match cnfOf cnf, n0.toNat?, proofsOf ps with
     | some c, some n, some p => toString (Sexp.ofBool (checkTrace c n p))
     | _, _, _ => "bad-op"
+  | some (.list [.atom "checkproofs", cnf, ps]) =>
+    match cnfOf cnf, proofsOf ps with
+    | some c, some p => toString (Sexp.ofBool (checkProofs c p))
+    | _, _ => "bad-op"
+  | some (.list [.atom "tseitin", f, order]) =>
+    match formOf f, (do (← order.toList?).mapM formOf) with
+    | some f, some o => toString (cnfTo (tseitinOrd f o))
+    | _, _ => "bad-op"
   | _ => "bad-op"
 
 end Holpy.C15.Driver
